@@ -15,6 +15,7 @@
 #include "xfrm/stream.h"
 #include "xfrm/wrap.h"
 #include "hexio.h"
+#include "cpu_watchdog.h"
 #include <assert.h>
 
 #ifndef H_BUFSZ
@@ -323,9 +324,11 @@ int main(void)
 		char *save = NULL, *t;
 		for (t = strtok_r(line, " \n", &save); t && ntok < MAXTOK; t = strtok_r(NULL, " \n", &save)) tok[ntok++] = t;
 		if (ntok == 0) { puts("bad-op"); continue; }
+		verif_cpu_watchdog(60);	/* CPU seconds per scenario; the largest ones need well under one */
 		if (strcmp(tok[0], "ostream") == 0) do_ostream(tok, ntok);
 		else if (strcmp(tok[0], "istream") == 0) do_istream(tok, ntok);
 		else puts("bad-op");
+		verif_cpu_watchdog(0);
 		fflush(stdout);
 	}
 	free(line);
